@@ -1,5 +1,6 @@
 #!/bin/bash
 # usage: run.sh <Cnn> [--tier quick|thorough] [--replay file]
+#        run.sh --warm     (build only: warms the Go build cache; used by setup.sh)
 # Rebuilds the checker against /repo's current working tree, then runs it.
 # VERIF_EXTRA_OVERLAY=<json> merges extra `go build -overlay` replacements
 # (used only to try deliberate mutations of /repo files without touching /repo).
@@ -36,6 +37,7 @@ json.dump({'Replace': rep}, open(sys.argv[1], 'w'))
 PY
 ( cd /verif/mc && go1.26 build -tags verif -overlay "$ov" -o "$out" ./cmd/vcheck ) || { rm -f "$ov"; echo "vcheck: build failed" >&2; exit 2; }
 rm -f "$ov"
+if [ "$1" = "--warm" ]; then rm -f "$out"; exit 0; fi
 "$out" "$@"
 rc=$?
 rm -f "$out"
